@@ -166,12 +166,16 @@ func (e *Executor) RunTask(ctx context.Context, call *Call) error {
 			if err := ctx.Err(); err != nil {
 				return err
 			}
+		}
 
-			preCondMet, err := e.areTaskPreconditionsMet(ctx, t)
-			if err != nil {
-				return err
-			}
+		// Preconditions guard the task itself: --force only bypasses the
+		// up-to-date check, never a failing precondition.
+		preCondMet, err := e.areTaskPreconditionsMet(ctx, t)
+		if err != nil {
+			return err
+		}
 
+		if !skipFingerprinting {
 			// Get the fingerprinting method to use
 			method := e.Taskfile.Method
 			if t.Method != "" {
